@@ -366,7 +366,7 @@ def gen_cases(T, row, rng, quick):
                 spec[kd["label"]] = header_spec(T, row, segs, i, rng, size_class)
         for init in inits:
             out.append({"row": [row["family"], row["revision"], row["mem_type"]], "init": init, "segs": spec, "sizes": size_class})
-            if (mi == 0 and (not quick or init == 0 or rng.randrange(3) == 0)) or (not quick and mi % 4 == 1):
+            if (mi == 0 and (not quick or (row["revision"] == "latest" and (init == 0 or rng.randrange(2) == 0)))) or (not quick and mi % 4 == 1):
                 out[-1]["extra"] = 1   # also pre_parse_verify and parse without memory type
         # one request that is not exactly a segment offset (the setter rounds up); requests by segment name are covered by the
         # init_offset stream through the constructor (the configuration schema only admits numbers)
@@ -895,7 +895,7 @@ def _glue_worker(task):
 
 def glue_stream(ck, T):
     import multiprocessing as mp
-    s = ck.stream("glue", "rows (quick: two families per distinct segment table, latest revision; thorough: every family x memory type, latest "
+    s = ck.stream("glue", "rows (quick: one or two families per distinct segment table, latest revision; thorough: every family x memory type, latest "
                   "revision) with all segments supplied, FCB / XMCD / MBI / HAB / AHAB as YAML configuration files: load_from_config places them like "
                   "the same segments given as binary files (and len(segment object) = length of its export); `nxpimage bootable-image merge` = "
                   "BootableImage.export(), `verify` accepts it, `parse` (store_config) -> `merge` reproduces the image; non-trivial = every row")
@@ -908,7 +908,7 @@ def glue_stream(ck, T):
         for lay in sorted(by_layout):
             cand = by_layout[lay]
             rows.append(cand[0])
-            if len(cand) > 1:
+            if len(cand) > 1 and lay % 3 == ck.seed % 3:
                 rows.append(cand[1 + ck.rng.randrange(len(cand) - 1)])
     else:
         rows = latest
